@@ -74,13 +74,13 @@ func (a lin) String() string {
 }
 
 type boundsProver struct {
-	fn        *ssa.Function
-	reach     map[ssa.Instruction]string // memory version at each load/call of fn
+	fn           *ssa.Function
+	reach        map[ssa.Instruction]string // memory version at each load/call of fn
 	clobberByVer map[string]ssa.Instruction // version "[k]" -> the single clobber k
 	// inlining context: callee parameter -> caller parameter, version at the call site
-	paramMap map[*ssa.Parameter]*ssa.Parameter
-	callVer  string
-	parent   *boundsProver
+	paramMap  map[*ssa.Parameter]*ssa.Parameter
+	callVer   string
+	parent    *boundsProver
 	substFrom ssa.Value // while deriving phi facts: this direct comparison operand ...
 	substTo   ssa.Value // ... stands for this phi
 }
